@@ -136,7 +136,7 @@ def frames_args(fn, variant):
     return args
 
 
-def observe(label, call, args, t, events, state=None):
+def observe(label, call, args, t, events, state=None, other_args=None):
     """call twice with equal contents (fresh copies); log content ids of every array argument before/after"""
     def arrays_of(d):
         return [(k, v) for k, v in sorted(d.items()) if isinstance(v, np.ndarray)]
@@ -158,10 +158,33 @@ def observe(label, call, args, t, events, state=None):
         if changed:
             t.fail("C19|%s|mutates-argument-%s" % (label, "+".join(changed)), {"callable": label, "args": {k: args[k] for k in changed}, "after": {k: a[k] for k in changed}})
         outs.append((o[0], res, o[1] if o[0] == "raise" else None))
+        # the caller owns what it got back: (1) a result held by the caller is not changed by a later call with OTHER arguments
+        # (a shared output buffer), (2) scribbling on a returned array does not change what the next call returns.  Only arrays that
+        # share no memory with an argument or with the object the method was called on are the caller's own.
+        if rep == 0 and o[0] == "ok":
+            rets = [x for x in (o[1] if isinstance(o[1], tuple) else (o[1],)) if isinstance(x, np.ndarray) and x.dtype.kind in "fi" and x.size]
+            owners = [v for v in a.values() if isinstance(v, np.ndarray)] + [getattr(a.get("self"), nm, None) for nm in ("A", "array")]
+            own = [x for x in rets if not any(isinstance(w, np.ndarray) and np.shares_memory(x, w) for w in owners)]
+            held = [cid(np.array(x)) for x in own]
+            if own and other_args is not None:
+                b = {k: (v.copy() if (isinstance(v, np.ndarray) and k != "self") else v) for k, v in other_args.items()}
+                if "self" in a:
+                    b["self"] = a["self"]
+                core.outcome(lambda: call(b))
+                if [cid(np.array(x)) for x in own] != held:
+                    # not a clause of C19 as stated (the same arguments would still give the same result): recorded in the evidence
+                    # notes only; the product routes, where it breaks associativity of nested calls, are decided by C09
+                    t.shared_buffers = getattr(t, "shared_buffers", []) + [label]
+            for x in own:
+                if x.flags.writeable:
+                    try:
+                        np.asarray(x)[...] = 777
+                    except Exception:  # noqa
+                        pass
     if outs[0][0] == "raise" and outs[1][0] == "raise":
         return "uncovered"
     if outs[0][1] != outs[1][1]:
-        t.fail("C19|%s|second-call-differs" % label, {"callable": label})
+        t.fail("C19|%s|second-call-differs" % label, {"callable": label, "note": "the array returned by the first call was overwritten by the caller in between"})
     return "covered"
 
 
@@ -312,15 +335,35 @@ def run(chk):
     t = Tally()
     events = []
     uncovered, covered = [], []
-    for label, call, args in catalogue():
+    items = catalogue()
+    import re as _re
+    by_base = {}
+    for label, call, args in items:
+        if call is not None:
+            by_base.setdefault(_re.sub(r"\[\d\]$", "", label), []).append(args)
+
+    def other_of(label, args):
+        """arguments of the same callable with OTHER contents: the other variant, or the arrays rearranged (rolled / transposed / reversed)"""
+        alts = [x for x in by_base.get(_re.sub(r"\[\d\]$", "", label), []) if x is not args]
+        if alts and set(alts[0]) == set(args):
+            return alts[0]
+        out = {}
+        for k, v in args.items():
+            if isinstance(v, np.ndarray) and k != "self" and v.dtype.kind == "f":
+                out[k] = np.roll(v, 1) if v.ndim == 1 else (np.swapaxes(v, -1, -2).copy() if v.shape[-1] == v.shape[-2] else v[::-1].copy())
+            else:
+                out[k] = v
+        return out
+    for label, call, args in items:
         if call is None:
             uncovered.append(label)
             continue
-        st = observe(label, call, args, t, events)
+        st = observe(label, call, args, t, events, other_args=other_of(label, args))
         (covered if st == "covered" else uncovered).append(label)
         t.keys.add(label)
     core.merge(chk, [t])
     chk.notes["callables_covered"] = len(set(covered))
+    chk.notes["results_changed_by_a_later_call_with_other_arguments"] = sorted(set(getattr(t, "shared_buffers", [])))
     chk.notes["callables_uncovered"] = sorted(set(uncovered))
     chk.rule = ("public callables found by introspection of ahrs.common.{orientation, quaternion, dcm, frames, mathfuncs, geometry}, ahrs.utils.metrics, "
                 "the classes Quaternion / QuaternionArray / DCM (constructors, keyword constructors, every public method and property) and 19 estimator "
